@@ -31,6 +31,22 @@ The oracle never decides what the *right* value is (that is C01..C12's
 business); it only demands that the value is a function of the arguments.
 Exceptions are events: an operation that raises in the pool must raise in the
 twin as well.
+
+A mismatch of an estimation with re-used objects is named by comparing the
+re-used loss (value, gradient at a test point) and the re-used algorithm (its
+projection at test points) with brand-new ones configured by the same call:
+`reuse:<owner class>:func_proj-cached:later-{option|tomography}-ignored`,
+`reuse:<loss class>:stale:<attributes that differ>`.
+
+Limits.  Interleavings are sampled.  Pool and twin live in one process: hidden
+state kept in module / class attributes is seen only when it makes results
+change over time or differ between composite systems (the twin of a cache
+deletion is therefore not executed: it would consume such state).  Inside the
+hooks the digest of a CompositeSystem is taken once per step (cost); a basis
+modified by an inner function is found by the sweep at the end of the step and
+attributed to the step.  A twin shares a CompositeSystem instance between
+operands exactly where the pool does (quara compares composite systems by
+identity in `+`/`-`; identity differences are not the property's subject).
 """
 import contextlib
 import inspect
@@ -223,7 +239,7 @@ def canon(x, out, depth=0):
             for v in x.ravel():
                 canon(v, out, depth + 1)
         else:
-            out.ex(("array", str(x.dtype.kind in "c" and "c" or x.dtype.kind), tuple(x.shape)))
+            out.ex(("array", "complex" if np.iscomplexobj(x) else "real", tuple(x.shape)))
             out.num(x)
         return
     if hasattr(x, "toarray") and hasattr(x, "tocsr"):
@@ -959,16 +975,13 @@ class History:
                 twin = (ok2, canon_of(val2) if ok2 else val2)
             self.judge(cls, op.label, pool, twin, info={"atol": atol})
         with self.hs.paused():
-            self.memo_check(op, argdig + [self.cache_state_free()], atol, pool)
+            self.memo_check(op, argdig, atol, pool)   # the state of the caches is deliberately not part of the key
         self.log.append((op, atol, cls))
         if ok and op.on_result is not None:
             op.on_result(self, val, op.operands)
         elif ok:
             self.maybe_add(val, op)
         return ok, val
-
-    def cache_state_free(self):
-        return None  # the state of the caches is deliberately NOT part of the memo key
 
     def maybe_add(self, val, op):
         tn = type(val).__name__
